@@ -41,11 +41,20 @@ class Cfg:
                 "undo_probe": self.undo_probe}
 
 
-def rebuild(w, seed, history):
+def rebuild(w, seed, history, _attempt=0):
     tracks = worlds.build(w, seed)
     events.attach_refresh_counter(tracks)
     for ev in history:
         out = apply_event(tracks, w, ev)
+        if out.status == "hang" and _attempt < 2:
+            # an event that was accepted when the state was first reached cannot loop: the
+            # watchdog fired on an overloaded machine - start over with a larger limit
+            saved = events.WATCHDOG_S
+            events.WATCHDOG_S = saved * 4
+            try:
+                return rebuild(w, seed, history, _attempt + 1)
+            finally:
+                events.WATCHDOG_S = saved
         if out.status not in ("ok", "noop"):
             raise RuntimeError(f"HARNESS: replay of accepted event {ev!r} gave {out.status} {out.exc!r}")
     return tracks
